@@ -61,7 +61,7 @@ func runC19(p *Prog, r *Report, tier string) {
 			if fc == nil {
 				continue
 			}
-			for _, e := range p.effects(fn).direct {
+			for _, e := range p.own(fn) {
 				if e.Kind == "W" {
 					fc.teq("T-eq", "stored-value", e.Val.String(), "k.cdc.MustMarshal(&p2)", p.instrPos(e.In))
 				}
